@@ -687,7 +687,9 @@ class AnsiString:
             (start, end) values where accompanying formats should be applied
         '''
         extend_formatting = True
-        match = re.search(r'^(?:(.?)([+-]?)<)?([0-9]*)$', string_format)
+        # Note: re.DOTALL lets any character, also a newline, be the fill character; \Z (unlike $) does not tolerate
+        # a trailing newline
+        match = re.search(r'^(?:(.?)([+-]?)<)?([0-9]*)\Z', string_format, re.DOTALL)
         if match:
             # Left justify
             num = match.group(3)
@@ -704,7 +706,7 @@ class AnsiString:
                 self.apply_formatting(settings)
             return
 
-        match = re.search(r'^(.?)([+-]?)>([0-9]*)$', string_format)
+        match = re.search(r'^(.?)([+-]?)>([0-9]*)\Z', string_format, re.DOTALL)
         if match:
             # Right justify
             num = match.group(3)
@@ -721,7 +723,7 @@ class AnsiString:
                 self.apply_formatting(settings)
             return
 
-        match = re.search(r'^(.?)([+-]?)\^([0-9]*)$', string_format)
+        match = re.search(r'^(.?)([+-]?)\^([0-9]*)\Z', string_format, re.DOTALL)
         if match:
             # Center
             num = match.group(3)
@@ -804,7 +806,7 @@ class AnsiString:
             # This will allow a colon to be a fill character based on the expected format
             # A fill character (and the +/- flag) is only present when an alignment character follows it, so that
             # an ansi part which starts with a digit (ex: ":31") is not taken for a colon fill character plus width
-            format_match = re.match(r'(^(?:.?[-\+]?[<>\^])?[0-9]*)(:.*)?$', format_spec)
+            format_match = re.match(r'(^(?:.?[-\+]?[<>\^])?[0-9]*)(:.*)?\Z', format_spec, re.DOTALL)
 
             if not format_match:
                 format_parts = [format_spec]
